@@ -25,6 +25,11 @@ type ProcResult struct {
 
 // runProc runs one OS process under a watchdog. Output is captured through pipes.
 func runProc(timeout time.Duration, dir string, env []string, argv ...string) ProcResult {
+	return runProcStdin(timeout, dir, env, nil, argv...)
+}
+
+// runProcStdin is runProc with the given bytes on standard input (nil: no stdin).
+func runProcStdin(timeout time.Duration, dir string, env []string, stdin []byte, argv ...string) ProcResult {
 	ctx, cancel := context.WithTimeout(context.Background(), timeout)
 	defer cancel()
 	c := exec.CommandContext(ctx, argv[0], argv[1:]...)
@@ -37,6 +42,9 @@ func runProc(timeout time.Duration, dir string, env []string, argv ...string) Pr
 	c.WaitDelay = 2 * time.Second
 	var so, se bytes.Buffer
 	c.Stdout, c.Stderr = &so, &se
+	if stdin != nil {
+		c.Stdin = bytes.NewReader(stdin)
+	}
 	t0 := time.Now()
 	err := c.Run()
 	res := ProcResult{Stdout: so.Bytes(), Stderr: se.Bytes(), Wall: time.Since(t0)}
